@@ -14,7 +14,8 @@ GEN = ["conccfg", "sendbufcfg", "stalewritecfg"]
 LEAN_MODULES = ["YowsupVerif.Props.C11", "YowsupVerif.Props.C11Stale"]
 RULE = ("2-4 sender threads with 1-4 stanzas each through the real coder, noise (counting cipher stand-in), segments layers; schedules chosen at random at "
         "every scheduling point (lock acquire / release, encryption, stream put / get, network write); thorough: additionally ALL schedules of 2 threads x 1-2 "
-        "stanzas by depth-first enumeration.  distinct = distinct (work, schedule).")
+        "stanzas by depth-first enumeration.  stream 'reconnect': sender threads and a network thread that loses the connection and completes a new login "
+        "while senders are inside their sends; the second connection must carry frames of the second session only; the run is replayed on Model/StaleWrite. distinct = distinct (work, schedule).")
 ASSUMPTIONS = ["CPython switches threads only between bytecodes; the scheduling points cover every operation on shared state of the data path (locks, cipher counter, "
                "stream queue, socket write) — a switch elsewhere is equivalent to one at the next point",
                "consonance's transport cipher is replaced by a stand-in that takes the next counter and writes the segment exactly where the real one does "
